@@ -229,6 +229,13 @@ Theorem len_timeout_in_window : forall t x,
 Proof. exact len_timeout_in_window_proof. Qed.
 Print Assumptions len_timeout_in_window.
 
+(* the width of the window, in milliseconds, is the duration the constant is declared
+   with in results.go (value x unit, both regenerated), and it is not empty *)
+Theorem grace_is_declared_duration :
+  (grace * ns_per_ms = c03_grace_value * c03_grace_unit_ns)%Z /\ (0 < grace)%Z.
+Proof. exact grace_is_declared_duration_proof. Qed.
+Print Assumptions grace_is_declared_duration.
+
 Theorem len_status_absent : forall d e a,
   assert_errs d e a = [] ->
   assert_errs d e (with_status None a) = [] /\ assert_errs d (with_status None e) a = [].
@@ -240,6 +247,23 @@ Theorem len_unsent_count : forall d e a u,
   assert_errs d (with_unsent u e) a = assert_errs d e a.
 Proof. exact len_unsent_count_proof. Qed.
 Print Assumptions len_unsent_count.
+
+(* ---------- from the client's report to the assertion (runTestCasesForServer) ----------
+   what reaches assert is what the client reported, for the reference client and for
+   any other; so the verdict recorded by the runner is the assertion's, and e.g. a
+   differing HTTP status is reported whoever the client is *)
+Theorem runner_hands_over_reported_result : forall ref r, handed_to_assert ref r = r.
+Proof. exact runner_hands_over_reported_result_proof. Qed.
+Print Assumptions runner_hands_over_reported_result.
+
+Theorem run_verdict_iff : forall ref d e a, run_errs ref d e a = [] <-> agree d e a.
+Proof. exact run_verdict_iff_proof. Qed.
+Print Assumptions run_verdict_iff.
+
+Theorem run_dev_status : forall ref d e a x y,
+  r_status e = Some x -> r_status a = Some y -> x <> y -> In EStatus (run_errs ref d e a).
+Proof. exact run_dev_status_proof. Qed.
+Print Assumptions run_dev_status.
 
 (* ---- non-vacuity: both sides of the iff occur; the window edges; the merged form ---- *)
 Definition ex_hdrs := [mkH (bs "X-A") [bs "1"; bs "2"]].
@@ -265,6 +289,13 @@ Proof. vm_compute. reflexivity. Qed.
 Example ex_below_window_fails :
   assert_errs ex_d ex_ok
     (mkR ex_hdrs ex_trls [mkP (bs "data") (mkRI [mkH (bs "x-req") [bs "v"]] (Some 6%Z) [mkAny 0 (bs "m")]
+                                                [mkH (bs "encoding") [bs "proto"]])] None (Some 200%Z) 0%Z)
+  = [ETimeoutMismatch].
+Proof. vm_compute. reflexivity. Qed.
+
+Example ex_far_below_window_fails :   (* zero, with an expectation above the window's width *)
+  assert_errs ex_d ex_ok
+    (mkR ex_hdrs ex_trls [mkP (bs "data") (mkRI [mkH (bs "x-req") [bs "v"]] (Some 0%Z) [mkAny 0 (bs "m")]
                                                 [mkH (bs "encoding") [bs "proto"]])] None (Some 200%Z) 0%Z)
   = [ETimeoutMismatch].
 Proof. vm_compute. reflexivity. Qed.
